@@ -142,3 +142,43 @@ Theorem C05_history : forall sz, (0 < sz)%nat -> forall ops f j, Forall (op_wf s
   untouched sz j ops f -> record sz j (run sz ops f) = record sz j f /\ (j < count sz (run sz ops f))%nat.
 Proof. exact history. Qed.
 Print Assumptions C05_history.
+
+(* windows of ANY length on files of ANY size: the index-level loop (what the harness runs against GetRecords on
+   generated files of thousands of records, too large to be carried as byte lists) is the byte-level loop with the
+   records dropped ... *)
+Theorem C05_get_records_by_index : forall sz start n desc f,
+  get_records sz start n desc f =
+  rmap (map (fun i => (i, record sz (Z.to_nat (i - 1)) f))) (get_records_idx start n desc (num_records sz f)).
+Proof. exact get_records_by_index. Qed.
+Print Assumptions C05_get_records_by_index.
+
+(* ... and the number of records returned is min(n, length of the run to the end of the file / down to record 1):
+   no other bound (an allocation cap, a page size) shortens a window, however large n and the file are; each
+   returned pair is (index, record at that index) *)
+Theorem C05_get_records_any_length : forall sz start n desc f, 1 <= start -> 0 <= n ->
+  exists l, get_records sz start n desc f = ROk l /\
+    get_records_idx start n desc (num_records sz f) = ROk (map fst l) /\
+    lenZ l = (let cnt := num_records sz f in
+              if cnt <? start then 0 else if desc then Z.min n start else Z.min n (cnt - start + 1)) /\
+    (forall i r, In (i, r) l -> r = record sz (Z.to_nat (i - 1)) f).
+Proof. exact get_records_any_length. Qed.
+Print Assumptions C05_get_records_any_length.
+
+(* histories of one process during some operations of which the OS refuses the write (EFBIG / ENOSPC, `HRefused`):
+   the refused operation leaves the file as it found it and does not report success, the final file is the one of
+   the history with the refused operations deleted, and every completed operation returned and left exactly what it
+   returns and leaves in that shorter history - a refused write leaves no trace for later operations *)
+Theorem C05_refused_write_leaves_no_trace : forall sz hs f,
+  hfinal sz hs f = run sz (completed hs) f /\
+  do_entries hs (htrace sz hs f) = trace sz (completed hs) f /\
+  (forall o g, snd (hstep sz (HRefused o) g) = g /\
+     (match o with ORead _ _ _ => True | _ => fst (fst (hstep sz (HRefused o) g)) <> ST_OK end)).
+Proof. exact refused_no_trace. Qed.
+Print Assumptions C05_refused_write_leaves_no_trace.
+
+(* hence the history theorem holds with refused writes interleaved anywhere *)
+Theorem C05_history_with_refused_writes : forall sz, (0 < sz)%nat -> forall hs f j,
+  Forall (op_wf sz) (completed hs) -> (j < count sz f)%nat -> untouched sz j (completed hs) f ->
+  record sz j (hfinal sz hs f) = record sz j f /\ (j < count sz (hfinal sz hs f))%nat.
+Proof. exact history_with_refused. Qed.
+Print Assumptions C05_history_with_refused_writes.
